@@ -10,7 +10,7 @@
 //	        | B | N | U      a <bounds>, <note>, <user> element at this place of the file (the scanner yields
 //	                         *osm.Bounds/*osm.Note/*osm.User; not objects of the extraction)
 //	refs  = - | <id>,<id>,...        members = - | n<id>,w<id>,r<id>,...
-//	tags  = - | <k>=<v>;<k>=<v>      (k, v small numbers; rendered as k="k<k>" v="v<v>")
+//	tags  = - | <k>=<v>;<k>=<v>      (k, v small numbers; rendered as k="k<k>" v="v<v>"; v = 0 is the EMPTY value v="")
 //
 // History line:  h <pos> <keep> <keep> [<keep>] | <obj> ...     2-3 extractions, one after the other, on the SAME
 //	bytes.Reader (never re-created); <pos> = where the reader stands before the first call: 0 | m (middle) | e (EOF).
@@ -171,9 +171,25 @@ func parseObj(t string) obj {
 	return o
 }
 
+// valS: the string of a tag-value code: "v<code>", code 0 = the EMPTY string (`<tag k="k1" v=""/>`)
+func valS(v int) string {
+	if v == 0 {
+		return ""
+	}
+	return fmt.Sprintf("v%d", v)
+}
+
+// valCode: inverse of valS for the tokens of the case line ("0" = empty value)
+func valTok(v string) string {
+	if v == "" {
+		return "0"
+	}
+	return strings.TrimPrefix(v, "v")
+}
+
 func xmlTags(b *bytes.Buffer, t [][2]int) {
 	for _, kv := range t {
-		fmt.Fprintf(b, `<tag k="k%d" v="v%d"/>`, kv[0], kv[1])
+		fmt.Fprintf(b, `<tag k="k%d" v="%s"/>`, kv[0], valS(kv[1]))
 	}
 }
 
@@ -235,7 +251,8 @@ func parseKeep(s string) gosm.KeepFunc {
 			vals := []string{}
 			if p[1] != "" {
 				for _, v := range strings.Split(p[1], "|") {
-					vals = append(vals, "v"+v)
+					n, _ := strconv.Atoi(v)
+					vals = append(vals, valS(n))
 				}
 			}
 			m["k"+p[0]] = vals
